@@ -129,7 +129,7 @@ def _interp(ctx):
         for nv in (4, 5, 6, 8, 12):
             for order in admissible_orders(method, nv):
                 combos.append((method, nv, order))
-    reps = ctx.pick(1, 40)
+    reps = ctx.pick(1, 100)
     k = 0
     for rep in range(reps):
         for icombo, (method, nv, order) in enumerate(combos):
